@@ -3,8 +3,12 @@ classdef("Individual",
          fields={"id": "Int", "vector": "List[Real]", "costs": "List[Real]", "costs_signed": "List[Real]",
                  "state": "Int", "population_id": "Int", "algorithm_id": "Int",
                  "parents": "List[Ref[Individual]]", "children": "List[Ref[Individual]]",
-                 "features": "Ref[Features]"},
+                 "features": "Ref[Features]", "custom": "Ref[Custom]"},
+         class_vars={"counter": "Int"},
          statics={"State": {"EMPTY": 0, "IN_PROGRESS": 1, "EVALUATED": 2, "FAILED": 3}})
+classdef("Custom", rec=True, fields={})
+classdef("Job", fields={"problem": "Ref[Problem]"})
+classdef("VectorAndNumbers", fields={})
 
 classdef("Features", rec=True,
          fields={"front_number": "Opt[Int]", "domination_counter": "Int", "dominate": "List[Int]",
@@ -19,7 +23,7 @@ classdef("EpsilonDominance", bases=["Dominance"], fields={"epsilons": "List[Real
 classdef("Archive", fields={"_dominance": "Ref[Dominance]", "_contents": "List[Ref[Individual]]"})
 
 classdef("Parameter", rec=True, optional=["bounds", "precision", "parameter_type", "initial_value", "tol"],
-         fields={"bounds": "List[Real]", "precision": "Real", "tol": "Real", "initial_value": "Real", "name": "Str"})
+         fields={"bounds": "List[Real]", "precision": "Real", "tol": "Real", "initial_value": "Real", "name": "Str", "parameter_type": "Str"})
 classdef("Options", rec=True,
          fields={"max_population_size": "Int", "max_population_number": "Int", "max_processes": "Int"})
 classdef("Algorithm", fields={"parameters": "List[Ref[Parameter]]", "options": "Ref[Options]", "problem": "Ref[Problem]",
@@ -39,11 +43,11 @@ classdef("Problem", fields={"parameters": "List[Ref[Parameter]]", "individuals":
                             "failed": "List[Ref[Individual]]", "signs": "List[Int]", "surrogate": "Ref[SurrogateModel]",
                             "data_store": "Ref[DataStore]", "has_predict": "Bool",
                             "ghost_calls": "Int", "ghost_last_arg": "Ref[Individual]", "ghost_last_vec": "List[Real]",
-                            "ghost_last_ret": "List[Real]"})
+                            "ghost_last_ret": "List[Real]", "ghost_last_g": "List[Real]", "ghost_nontransient": "Int"})
 classdef("DataStore", fields={})
 classdef("SurrogateModel", fields={"problem": "Ref[Problem]", "x_data": "List[List[Real]]", "y_data": "List[List[Real]]",
                                    "trained": "Bool", "eval_counter": "Int", "predict_counter": "Int", "train_step": "Int",
-                                   "regressor": "Opt[Ref[Regressor]]", "ghost_trains": "Int"})
+                                   "regressor": "Opt[Ref[Regressor]]", "ghost_trains": "Int", "passthrough": "Bool"})
 classdef("Regressor", fields={})
 classdef("SurrogateModelPredict", bases=["SurrogateModel"], fields={})
 classdef("SurrogateModelEval", bases=["SurrogateModel"], fields={})
